@@ -21,6 +21,7 @@ def run(ctx):
     repo, cg = ctx.repo, ctx.cg
     ctx.rule('R01.1', 'writer/reader op tables agree on the notebook path: every op a notebook differ can emit (by container kind of the builder used) has a non-raising arm in patch/flatten/count', floor=10)
     ctx.rule('R01.2', 'the file interface revives what it serialised: nbdiff dumps the diff object it computed; nbpatch feeds patch_notebook with to_diffentry_dicts(json.load(...)), which recurses into dicts and lists', floor=4)
+    ctx.rule('R01.4', 'source/text diffs are line-keyed: the differ and the patcher split with the same primitive', floor=4)
     ctx.rule('R01.3', '"empty diff => identical" needs type-discriminating equality on the notebook path (same sites as C02 R02.1 plus the mime differ)', floor=3)
 
     consts = mf.diffop_consts(repo)
@@ -149,6 +150,16 @@ def run(ctx):
                                                   if ('func', 'nbdime.utils:read_notebook') in cg.resolve(c.func, hd)]
     ctx.inst('R01.2', 'nbdime.nbdiffapp:_handle_diff', repo.norm(dn[0]), args_ok, 'diff(base, remote) in that order' if args_ok else
              'the diff command diffs the notebooks in the wrong order', dn[0])
+
+    # ---------------------------------------------------------------- R01.4 the differ and the patcher count lines alike
+    from ..linemodel import python_line_sites
+    sites = python_line_sites(ctx)
+    sigs = {tuple(sig) for f, sig, node in sites}
+    for f, sig, node in sites:
+        ok = len(sigs) == 1 and sig == ['splitlines(True)']
+        ctx.inst('R01.4', f, 'line splitter: %s' % sig, ok, 'same line model at the site that creates line keys and the site that consumes them' if ok else
+                 'line keys are created/consumed with different splitters (%s vs %s): string patches land at wrong offsets' % (
+                     sig, sorted({s for f2, sg, n2 in sites if f2 != f for s in sg})), node)
 
     # ---------------------------------------------------------------- R01.3: reuse the C02 site analysis on the notebook path
     sub = type(ctx).__new__(type(ctx))
